@@ -273,6 +273,10 @@ pub fn run_c08(ctx: &Ctx) -> i32 {
             2 => crate::mon_a::rice_case(&mut rng, 12_000),
             _ => gen_case(&mut rng, &Limits { max_samples: 12_000, ..Limits::default() }),
         };
+        if idx % 4 == 3 {
+            crate::poison::failing_writes(&mut Rng::for_case(ctx.seed, "poison", idx));
+            out.count("cases_checked_after_failed_writes_on_the_thread");
+        }
         match observe(&case) {
             Ok(obs) => {
                 out.distinct.insert(case.key());
@@ -434,6 +438,10 @@ pub fn run_c08(ctx: &Ctx) -> i32 {
         let num = if rng.chance(1, 3) { *rng.pick(&nm) } else { rng.next_u64() >> rng.urange(28, 63) };
         let off = if rng.flip() { FrameOffset::Frame((num & 0x7FFF_FFFF) as u32) } else { FrameOffset::StartSample(num & 0xF_FFFF_FFFF) };
         let desc = json!({"block": bs, "rate": rate, "bps": bps, "ch": format!("{ch:?}"), "offset": format!("{off:?}")});
+        if idx % 16 == 7 {
+            crate::poison::failing_writes(&mut Rng::for_case(ctx.seed, "poison", idx));
+            out.count("cases_checked_after_failed_writes_on_the_thread");
+        }
         match catch(|| FrameHeader::new(bs, ch.clone(), bps, rate, off)) {
             Ok(Ok(h)) => {
                 out.distinct.insert(prng::hash_str(&desc.to_string()));
@@ -813,6 +821,25 @@ fn fault_sweep<T: BitRepr>(ctx: &Ctx, what: &str, c: &T, max_dense: usize, out: 
             Ok((Ok(()), _)) => out.violation(format!("C12|error-swallowed|{what}"), format!("fault at op {k} of {n}: write returned Ok"), rp(k)),
             Err(p) => out.violation(format!("C12|panic|{what}|{}", p.site()), format!("fault at op {k} of {n}: {}", p.short()), rp(k)),
         }
+        // the failure must leave nothing behind: the same component written again on this thread
+        // (every 4th fault position, and the last) gives the fault-free bits
+        if k % 4 == 0 || k + 1 == n {
+            let again = catch(|| {
+                let mut s = UserSink::new();
+                c.write(&mut s).map(|()| s)
+            });
+            out.count("rewrites_after_a_failed_write");
+            match again {
+                Ok(Ok(s)) => {
+                    if s.bits.len != clean.bits.len || s.bits.bytes != clean.bits.bytes {
+                        out.violation(format!("C12|rewrite-after-failure-differs|{what}"), format!("after a fault at op {k} of {n}, writing the same {what} again gives {} bits instead of the fault-free {} (or different bits)", s.bits.len, clean.bits.len), rp(k));
+                        return;
+                    }
+                }
+                Ok(Err(e)) => out.violation(format!("C12|rewrite-after-failure-fails|{what}"), format!("{e}"), rp(k)),
+                Err(p) => out.violation(format!("C12|panic|{what}|{}", p.site()), format!("re-write after a fault at op {k}: {}", p.short()), rp(k)),
+            }
+        }
     }
 }
 
@@ -1004,6 +1031,82 @@ pub fn run_c14(ctx: &Ctx) -> i32 {
         }
         if idx < 2 {
             out.sample(json!({"sub": "fills", "case": desc}));
+        }
+    });
+    // (b') the (FrameBuf, Context) pair the stream encoder fills, driven with sequences that also
+    // contain fills the buffer must refuse (too long) and empty fills: after every step - accepted
+    // or refused - both delivery paths must have left the pair in the same state
+    let n = ctx.tier.pick(6000, 300_000);
+    run_cases(ctx, "tuple", n, &mut out, |idx, out| {
+        let mut rng = Rng::for_case(ctx.seed, "C14.tuple", idx);
+        let channels = 1 + (idx % 8) as usize;
+        let bps = gen::WIDTHS[(idx / 8 % 5) as usize];
+        let bytes = (bps + 7) / 8;
+        let cap = *rng.pick(&[32usize, 33, 64, 100, 257]);
+        let lo = gen::smin(bps) as i64;
+        let hi = gen::smax(bps) as i64;
+        let Ok(si) = StreamInfo::new(44100, channels, bps) else { return };
+        let steps = 3 + rng.usize_below(5);
+        let mut lens = vec![];
+        for _ in 0..steps {
+            lens.push(match rng.usize_below(6) {
+                0 => cap + 1 + rng.usize_below(40),
+                1 => 0,
+                2 => cap,
+                _ => rng.usize_below(cap + 1),
+            });
+        }
+        let desc = json!({"channels": channels, "bps": bps, "capacity": cap, "fill_lengths": lens});
+        let r = catch(|| -> Result<(u64, u64), String> {
+            let mut ti = (FrameBuf::with_size(channels, cap).map_err(|e| format!("{e}"))?, Context::new(bps, channels));
+            let mut tb = (FrameBuf::with_size(channels, cap).map_err(|e| format!("{e}"))?, Context::new(bps, channels));
+            let (mut refused, mut accepted) = (0u64, 0u64);
+            let mut expect_total = 0usize;
+            for (step, len) in lens.iter().enumerate() {
+                let data: Vec<i32> = (0..len * channels).map(|_| match rng.usize_below(5) { 0 => lo as i32, 1 => hi as i32, _ => rng.range(lo, hi) as i32 }).collect();
+                let by = gen::to_le_bytes(&data, bytes);
+                let ri = ti.fill_interleaved(&data);
+                let rb = tb.fill_le_bytes(&by, bytes);
+                if ri.is_ok() != rb.is_ok() {
+                    return Err(format!("step {step} (len {len}): integer fill {} but byte fill {}", if ri.is_ok() { "accepted" } else { "refused" }, if rb.is_ok() { "accepted" } else { "refused" }));
+                }
+                if ri.is_ok() {
+                    accepted += 1;
+                    expect_total += len;
+                } else {
+                    refused += 1;
+                }
+                if *len > cap && ri.is_ok() {
+                    return Err(format!("step {step}: a fill of {len} samples into a buffer of {cap} was accepted"));
+                }
+                if ti.0.filled_size() != tb.0.filled_size() {
+                    return Err(format!("step {step} (len {len}, {}): filled_size {} (integers) vs {} (bytes)", if ri.is_ok() { "accepted" } else { "refused" }, ti.0.filled_size(), tb.0.filled_size()));
+                }
+                if ti.1.md5_digest() != tb.1.md5_digest() || ti.1.total_samples() != tb.1.total_samples() || ti.1.current_frame_number() != tb.1.current_frame_number() {
+                    return Err(format!("step {step} (len {len}, {}): Context diverges: total {} vs {}, frame {:?} vs {:?}, md5 {:02x?} vs {:02x?}", if ri.is_ok() { "accepted" } else { "refused" }, ti.1.total_samples(), tb.1.total_samples(), ti.1.current_frame_number(), tb.1.current_frame_number(), &ti.1.md5_digest()[..4], &tb.1.md5_digest()[..4]));
+                }
+                if ti.1.total_samples() != expect_total {
+                    return Err(format!("step {step}: Context counts {} samples, {} were accepted", ti.1.total_samples(), expect_total));
+                }
+                if ti.0.filled_size() > 0 {
+                    let vi = buffer_view(&vcfg, &ti.0, &si)?;
+                    let vb = buffer_view(&vcfg, &tb.0, &si)?;
+                    if vi != vb {
+                        return Err(format!("step {step} (len {len}): buffers differ between the two delivery paths"));
+                    }
+                }
+            }
+            Ok((accepted, refused))
+        });
+        out.evaluations += 1;
+        out.distinct.insert(prng::hash_str(&desc.to_string()));
+        match r {
+            Ok(Ok((a, rf))) => {
+                out.add("tuple_fills_accepted", a);
+                out.add("tuple_fills_refused", rf);
+            }
+            Ok(Err(e)) => out.violation("C14|tuple-state-diverges", e, rpj(ctx, "tuple", idx, desc)),
+            Err(p) => out.violation(format!("C14|panic|{}", p.site()), p.short(), rpj(ctx, "tuple", idx, desc)),
         }
     });
     // (a) streams
